@@ -126,6 +126,8 @@ MUTANTS["C09"] = [
     ("timeout-default-for-nested", "annet/deploy.py", '            "timeout": rule["attrs"]["timeout"],', '            "timeout": rule["attrs"]["timeout"] if not rule["children"] else 30,'),
     ("groupby-global", "annet/deploy.py", "    for _k, cmd_before_after in itertools.groupby(cmds_with_apply, key=_key):\n        cmd_before_after = list(cmd_before_after)", "    groups = {}\n    for item in cmds_with_apply:\n        groups.setdefault(_key(item), []).append(item)\n    for _k, cmd_before_after in groups.items():\n        cmd_before_after = list(cmd_before_after)"),
     ("dont_commit-ignored-in-job", "annet/api/__init__.py", "            device.hw, cmds,\n            do_commit=not self.args.dont_commit\n        )", "            device.hw, cmds,\n        )"),
+    ("exit-keeps-stale-context", "annet/annlib/tabparser.py", "            yield row, row_context\n            if row_context is not None:\n                last_row_context = row_context", "            yield row, row_context\n            if row_context:\n                last_row_context = row_context"),
+    ("multiline-body-context-lost", "annet/annlib/patching.py", '                        "context": attrs["context"],\n                    })', '                        "context": attrs["context"] if not sub_pre else {},\n                    })'),
 ]
 
 MUTANTS["C16"] = [
